@@ -144,7 +144,7 @@ def part_graders(ctx):
     from mitxgraders import FormulaGrader, NumericalGrader, MatrixGrader
     Scripted = D.scripted_class()
     rng = ctx.rng
-    asks, meta = [], []
+    asks, meta, pasks, pmeta = [], [], [], []
     for it in range(ctx.scale(500, 9000)):
         n = rng.randint(1, 6)
         fe = rng.choice([0, 0, 0, 1, 1, 2, 3, n - 1, n, n + 1, 7])
@@ -240,6 +240,11 @@ def part_graders(ctx):
         ctx.case({'class': cls.__name__, 'answer': wrap_a, 'student': wrap_s, 'tol': tol, 'n': n, 'fe': fe, 'failures': nfail, 'result': got},
                  nontrivial_key=(wrap_a, wrap_s, repr(tol), n, fe, repr(case['draws'])) if nt else None,
                  kind='grader:%s:%s:%s' % (shape, kdelta, 'pass' if passes else 'fail'))
+        if not guard and shape == 'scalar' and kdelta != 'branch':
+            # the WHOLE pipeline in the model: both strings parsed and evaluated on every scripted sample by the Lean evaluator
+            pasks.append({'op': 'formula_pipeline', 'answer': wrap_a, 'student': wrap_s, 'hidden': [], 'samples': [[[a, frac_to_str(b)] for a, b in d.items()] for d in draws],
+                          'tol': tj, 'failable': fe, 'ans': {'ok': ansd['ok'], 'grade_decimal': frac_to_str(Fraction(ansd['grade_decimal'])), 'msg': ansd['msg']}})
+            pmeta.append((case, got))
         if not guard:
             asks.append({'op': 'formula_grade', 'samples': [[a, b] for a, b in pairs], 'tol': tj, 'failable': fe,
                          'answer': {'ok': ansd['ok'], 'grade_decimal': frac_to_str(Fraction(ansd['grade_decimal'])), 'msg': ansd['msg']}})
@@ -248,6 +253,12 @@ def part_graders(ctx):
         for (case, got), o in zip(meta, ctx.driver.ask_many(asks)):
             if o.get('out') != got:
                 ctx.disagree('grader verdict differs from the model', case, got, o)
+        for (case, got), o in zip(pmeta, ctx.driver.ask_many(pasks)):
+            if 'err' in o and o['err'].endswith(('oom', 'undef-func')):
+                ctx.count('pipeline:outside-model'); continue
+            ctx.count('pipeline:compared')
+            if o.get('out') != got:
+                ctx.disagree('grader verdict differs from the whole-pipeline model (parse + evaluate on every sample + compare + consolidate)', case, got, o)
 
 
 def part_sampled_functions(ctx):
